@@ -143,7 +143,6 @@ def handle (j : Json) (cache : Bool) : Except String Verdict := do
     if !(cfgs.zip accsT).all (fun (b, t) => winContigB b.evictEnd t) then tags := tags ++ ["window-not-contiguous"]
     if !accsT.all (fun t => stampsSortedB (t.map (·.stamp))) then tags := tags ++ ["unsorted-stamps"]
     let mut prevReads : Option Nat := none
-    let mut first : Option Run := none
     let mut inWorld := true         -- model(code's shapes) = reference(code's shapes) for every capacity
     let mut staleMatters := false   -- reference(code's shapes) ≠ reference(true shapes) somewhere
     let mut wrongPop := false
@@ -190,7 +189,6 @@ def handle (j : Json) (cache : Bool) : Except String Verdict := do
           prevReads := some (readsOf run.traffic)
           if readsOf run.traffic > c.ls * (accsT.map (fun t => distinctFirstReads [] t)).sum then
             tags := tags ++ ["capacity-miss"]
-        if first.isNone then first := some run
       if cap == some 0 then tags := tags ++ ["cap0"]
       if cap.isNone then tags := tags ++ ["cap-inf"]
     -- attribution of a deviation to the defects the model mirrors
@@ -200,10 +198,11 @@ def handle (j : Json) (cache : Bool) : Except String Verdict := do
     if cache && hypOk && !inWorld then tags := tags ++ ["THEOREM-CONTRADICTED"]
     if inWorld && staleMatters then tags := tags ++ ["explained:stale-shape"]
     -- line-granularity: the jittered rerun (first capacity) must charge the same
-    match jit, first with
+    match jit, runs.head? with
     | some jr, some fr =>
       tags := tags ++ ["jitter"]
-      if jr.err.isSome || !sameTable jr.traffic fr.traffic then
+      -- same capacity (the first of the list) on both runs; a crash on both sides is "the same"
+      if jr.err != fr.err || (jr.err.isNone && !sameTable jr.traffic fr.traffic) then
         spec := false; why := why ++ " position jitter inside a line changed the traffic;"
         tags := tags ++ ["fail:jitter"]
     | _, _ => pure ()
